@@ -373,6 +373,22 @@ func receiverWrites(fn *ssa.Function) []string {
 	return out
 }
 
+// requireStateless: the request handlers named keep nothing in their receiver
+// from one request to the next (no method they reach on the same receiver stores
+// into its fields). A decision that is remembered across requests outlives the
+// inputs it was made from (a TRC update, a policy change, another requester).
+func requireStateless(c *Ctx, rule string, handlers ...string) {
+	for _, q := range handlers {
+		fn := c.Fn(q)
+		if fn == nil {
+			continue
+		}
+		w := receiverWrites(fn)
+		c.Check(len(w) == 0, rule, FuncName(fn)+":receiver-not-written", fn.Pos(),
+			fmt.Sprintf("%d store(s) into the receiver's fields in the methods it reaches: %s", len(w), strings.Join(truncList(w, 3), " | ")))
+	}
+}
+
 // countCalls counts the static call sites of callee in fns.
 func countCalls(fns []*ssa.Function, callee string) int {
 	n := 0
